@@ -9,8 +9,14 @@ C05 - models specific to reconnection (the system model with the `reconnect` ope
    equals the current one is not re-sent but still counts as held; removed = subscribed - have.
 2. Registration of a new connection versus publication of a new snapshot
    (pilot/pkg/xds/ads.go `initConnection`: `proxy.LastPushContext = s.globalPushContext()`, `authorize`,
-   `addCon`, `initializeProxy`; discovery.go `Push` / ads.go `StartPush`: the new snapshot becomes global,
-   then a push is enqueued for every REGISTERED connection).
+   `addCon`, `initializeProxy`; discovery.go `Push`: `initPushContext` makes the new snapshot global
+   (`Env.SetPushContext`), THEN `AdsPushAll` -> ads.go `StartPush` enqueues a push carrying that snapshot for
+   every REGISTERED connection (`AllClients`) - two separate steps, with `initConnection` of another
+   goroutine free to run in between).
+3. Start-up: `Stream` / `StreamDeltas` refuse a connection while `IsServerReady()` is false and initialise the
+   global push context (`globalPushContext().InitContext`) before a connection is created; bootstrap
+   `waitForCacheSync` marks the server ready only when the caches are synced and every update received until
+   then has been committed to a push context.
 -/
 namespace IstioModel.C05
 open IstioModel.C03 IstioModel.C04
@@ -35,24 +41,48 @@ inductive Phase
   deriving DecidableEq, Repr
 
 structure Reg where
-  global : Nat := 0            -- version of the published snapshot
-  phase  : Phase := .start
-  lpc    : Nat := 0            -- `proxy.LastPushContext` (version)
-  queued : Option Nat := none  -- push event parked for this connection (newest snapshot wins on merge)
+  global   : Nat := 0            -- version of the published snapshot (`Env.PushContext()`)
+  phase    : Phase := .start
+  lpc      : Nat := 0            -- `proxy.LastPushContext` (version)
+  queued   : Option Nat := none  -- push event parked for this connection (the newest request wins on merge)
+  inflight : Option Nat := none  -- a `Push` call is between its two halves: the snapshot it built
   deriving DecidableEq, Repr
 
+/-- `Push` runs on one goroutine at a time (the debouncer starts the next one only when the previous
+    returned), so its two halves alternate; everything else interleaves freely with them. -/
 inductive RegStep
-  | publish        -- `Push`: a newer snapshot becomes global; StartPush enqueues for registered connections
+  | setGlobal      -- `initPushContext`: the snapshot built by this `Push` becomes global (`SetPushContext`)
+  | enqueue        -- `AdsPushAll` / `StartPush`: a push carrying that snapshot is enqueued for registered connections
   | advance        -- the connection's goroutine performs its next `initConnection` step
   | handlePush     -- the connection's stream loop handles its parked push event (only once initialized)
   deriving DecidableEq, Repr
 
-/-- `reread`: the repaired code reads the global snapshot again right after `addCon`. -/
-def regStep (reread : Bool) (r : Reg) : RegStep → Reg
-  | .publish =>
-    let g := r.global + 1
-    { r with global := g,
-             queued := if r.phase = .registered ∨ r.phase = .initialized then some g else r.queued }
+def Reg.isRegistered (r : Reg) : Bool := r.phase = .registered || r.phase = .initialized
+
+/-- `reread`: the repaired code reads the global snapshot again right after `addCon`.
+    `publishFirst`: the order inside `Push` - `true` is the code (`SetPushContext`, then `StartPush`);
+    `false` is the reverse order (enqueue the snapshot, then make it global).  The second half of a
+    `Push` is only enabled after its first half and vice versa; a disabled step changes nothing. -/
+def regStep (reread publishFirst : Bool) (r : Reg) : RegStep → Reg
+  | .setGlobal =>
+    if publishFirst then
+      match r.inflight with
+      | none => { r with global := r.global + 1, inflight := some (r.global + 1) }
+      | some _ => r
+    else
+      match r.inflight with
+      | some g => { r with global := g, inflight := none }
+      | none => r
+  | .enqueue =>
+    if publishFirst then
+      match r.inflight with
+      | some g => { r with queued := if r.isRegistered then some g else r.queued, inflight := none }
+      | none => r
+    else
+      match r.inflight with
+      | none => { r with queued := if r.isRegistered then some (r.global + 1) else r.queued,
+                         inflight := some (r.global + 1) }
+      | some _ => r
   | .advance =>
     match r.phase with
     | .start => { r with phase := .readSnapshot, lpc := r.global }
@@ -61,9 +91,60 @@ def regStep (reread : Bool) (r : Reg) : RegStep → Reg
     | .initialized => r
   | .handlePush =>
     match r.phase, r.queued with
-    | .initialized, some g => { r with lpc := max r.lpc g, queued := none }
+    -- `computeProxyState`: `proxy.LastPushContext = push` - an assignment, not a maximum
+    | .initialized, some g => { r with lpc := g, queued := none }
     | _, _ => r
 
-def regRun (reread : Bool) (r : Reg) (steps : List RegStep) : Reg := steps.foldl (regStep reread) r
+def regRun (reread publishFirst : Bool) (r : Reg) (steps : List RegStep) : Reg :=
+  steps.foldl (regStep reread publishFirst) r
+
+/-! ### Start-up: nothing is served before the caches are synced -/
+
+/-- An instance that is starting.  The cluster state is static here (`full` objects; changes after
+    start-up are C01's subject); `caches` of them have reached the registries / config store so far. -/
+structure Boot where
+  full    : Nat
+  caches  : Nat := 0
+  pending : Bool := false        -- an update was received (`InboundUpdates`) and not yet committed to a push context
+  ctx     : Option Nat := none   -- the global push context: `none` = `NewPushContext()`, never initialised
+                                 -- (no mesh config, no services); `some n` = initialised when the caches held n objects
+  ready   : Bool := false        -- `serverReady` (`CachesSynced()` was called)
+  deriving DecidableEq, Repr
+
+inductive BootStep
+  | load           -- an informer delivers one more object: the cache grows, `ConfigUpdate` is called
+  | push           -- the debounced `Push`: a new push context is initialised from the caches and published
+  | markReady      -- bootstrap: `waitForCacheSync` (caches synced, every update so far committed), then `CachesSynced()`
+  | connect        -- a proxy calls `Stream` / `StreamDeltas`
+  deriving DecidableEq, Repr
+
+/-- What a connecting proxy meets. -/
+inductive Served
+  | refused                 -- `codes.Unavailable`: the proxy keeps what it has and retries
+  | cold                    -- served from a never-initialised push context
+  | from (n : Nat)          -- served from a context initialised when the caches held `n` objects
+  deriving DecidableEq, Repr
+
+/-- `gate`: the `IsServerReady` check of `Stream` / `StreamDeltas` is present;
+    `initInStream`: so is `globalPushContext().InitContext(...)`. Returns the new state and, for a
+    `connect`, what the proxy met. -/
+def bootStep (gate initInStream : Bool) (b : Boot) : BootStep → Boot × Option Served
+  | .load => if b.caches < b.full then ({ b with caches := b.caches + 1, pending := true }, none) else (b, none)
+  | .push => ({ b with ctx := some b.caches, pending := false }, none)
+  | .markReady => if b.caches = b.full ∧ b.pending = false then ({ b with ready := true }, none) else (b, none)
+  | .connect =>
+    if gate && !b.ready then (b, some .refused)
+    else
+      -- `InitContext` returns immediately when the context is already initialised
+      let ctx := if initInStream then (match b.ctx with | some n => some n | none => some b.caches) else b.ctx
+      ({ b with ctx := ctx }, some (match ctx with | some n => .from n | none => .cold))
+
+/-- Run a schedule; collect what every connecting proxy met. -/
+def bootRun (gate initInStream : Bool) : Boot → List BootStep → Boot × List Served
+  | b, [] => (b, [])
+  | b, e :: es =>
+    let (b1, o) := bootStep gate initInStream b e
+    let (b2, os) := bootRun gate initInStream b1 es
+    (b2, o.toList ++ os)
 
 end IstioModel.C05
